@@ -14,7 +14,9 @@ META = {
 }
 
 def _base_queries():
-    return [Q("recvrec-ack-split", "C07_recsplit.c", units=["src/ssl/ssl_engine.c"], unwind=8, timeout=600,
+    return [Q("recvrec-finished", "C07_recfin.c", units=["src/ssl/ssl_engine.c"], unwind=4, timeout=120,
+              desc="br_ssl_engine_recvrec_finished == documented predicate (header complete and body outstanding), every register state"),
+            Q("recvrec-ack-split", "C07_recsplit.c", units=["src/ssl/ssl_engine.c"], unwind=8, timeout=600,
               desc="recvrec_ack(a);recvrec_ack(b) == recvrec_ack(a+b) from any input-accepting state (header phase or encrypted body), buffer 837")]
 
 
